@@ -5,6 +5,8 @@
      hdr   {hid, class, tsbd, masterTs, masterDur, initWindow, unshifted, names:[track], tracks:[{name, ts, late}]}
      up    {i, track, kind: "init"|"media", n, status (-1: not answered), dts, dur, h (digest of the uploaded bytes),
             processed (the complete `process` event of this upload arrived), files: {track: [{n, h}]} (directory listings),
+            cut (0 | 1 | 2: the body broke inside the first / a later fragment), frags,
+            (files entries also carry the driver's own decoding of the stored file: ok, dts, dur, fr)
             mpd: {state: "absent"|"same"|"new", ok (complete document), as: [{ts, start, reps:[id], S:[{t, d, r}]}]},
             hook: {have, started, window, nrTracks, latest, fill:{track: k|-1}, blen:{..}, cfill, clen, maxBuf}}
      poll  {reads, bad, sample}   the concurrent reader of the MPD file during the uploads of the history
@@ -13,8 +15,8 @@
    Ground truth (dts, dur, h, the window) is the driver's own construction; nothing is taken from the receiver's tables
    except the hook scalars, which are the observed state the bounded clause speaks about. *)
 EXTENDS TraceLib, ReceiverOps
-VARIABLES l, h, upl, lastB, startedPrev, pubSeen
-vars == <<l, h, upl, lastB, startedPrev, pubSeen>>
+VARIABLES l, h, upl, tried, lastB, startedPrev, pubSeen, curAs
+vars == <<l, h, upl, tried, lastB, startedPrev, pubSeen, curAs>>
 Clause(name, ok, detail) == ClauseAt(l, name, ok, detail)
 e == Trace[l]
 H == Trace[h]
@@ -24,19 +26,23 @@ Window == WindowOf(H.tsbd, H.masterTs, H.masterDur)
 TrackTs(t) == LET i == CHOOSE j \in DOMAIN H.tracks : H.tracks[j].name = t IN H.tracks[i].ts
 One(S) == CHOOSE x \in S : TRUE
 
-Init == l = 1 /\ h = 1 /\ upl = {} /\ lastB = -1 /\ startedPrev = FALSE /\ pubSeen = FALSE /\ MonitorInit
+Init == l = 1 /\ h = 1 /\ upl = {} /\ tried = {} /\ lastB = -1 /\ startedPrev = FALSE /\ pubSeen = FALSE /\ curAs = <<>> /\ MonitorInit
 
 Hdr == /\ e.ev = "hdr"
-       /\ h' = l /\ upl' = {} /\ lastB' = -1 /\ startedPrev' = FALSE /\ pubSeen' = FALSE
+       /\ h' = l /\ upl' = {} /\ tried' = {} /\ lastB' = -1 /\ startedPrev' = FALSE /\ pubSeen' = FALSE /\ curAs' = <<>>
 
 Up == /\ e.ev = "up"
       /\ LET accepted == e.kind = "media" /\ e.status = 200
              u    == [t |-> e.track, n |-> e.n, dts |-> e.dts, dur |-> e.dur, h |-> e.h]
              upl1 == IF accepted THEN {x \in upl : ~(x.t = e.track /\ x.n = e.n)} \cup {u} ELSE upl
-             missing == NotStored(upl1, e.files, MaxBuf, H.unshifted)
+             tried1 == IF e.kind = "media" THEN tried \cup {[t |-> e.track, n |-> e.n]} ELSE tried
+             missing == NotStored(upl1, tried1, e.files, MaxBuf, H.unshifted)
              W    == IF e.hook.started THEN Window ELSE H.initWindow
              pub  == e.mpd.state = "new" /\ e.mpd.ok
              b    == IF pub /\ Len(e.mpd.as) > 0 THEN NewestListed(e.mpd.as) ELSE lastB
+             \* the AdaptationSets of the MPD that is on disk at this observation
+             cur  == IF e.mpd.state = "new" THEN (IF e.mpd.ok THEN e.mpd.as ELSE <<>>)
+                     ELSE IF e.mpd.state = "same" THEN curAs ELSE <<>>
          IN
          \* C17.progress: every upload is answered; every accepted media upload produces its process event
          /\ Clause("C17.progress.answered", e.status > 0, <<e.track, e.n>>)
@@ -44,18 +50,30 @@ Up == /\ e.ev = "up"
          \* C17.stored
          /\ Clause("C17.stored", missing = {},
                    IF missing = {} THEN <<>> ELSE <<"track", One(missing).t, "n", One(missing).n, "missing", Cardinality(missing)>>)
-         \* C17.listed: judged when the MPD is (re)published
+         \* C17.listed, judged when the MPD is (re)published: every listed number has a stored file and an ACCEPTED upload
+         \* for every Representation (a refused / aborted upload leaves no trace in what is published)
          /\ IF pub
             THEN \A i \in DOMAIN e.mpd.as :
                    LET as     == e.mpd.as[i]
                        nofile == ListedWithoutFile(as, e.files, Names)
-                       sameTs == \A r \in Range(as.reps) : r \in Names /\ TrackTs(r) = as.ts
-                       wrong  == IF sameTs THEN ListedWrongTime(as, upl1) ELSE {}
+                       notacc == ListedNotAccepted(as, upl1, Names)
                    IN /\ Clause("C17.listed.files", nofile = {},
                                 IF nofile = {} THEN <<>> ELSE <<"rep", One(nofile)[1], "n", One(nofile)[2], "first", FirstNr(as), "last", LastNr(as)>>)
-                      /\ Clause("C17.listed.times", wrong = {},
-                                IF wrong = {} THEN <<>> ELSE <<"rep", One(wrong)[1], "n", One(wrong)[2], "first", FirstNr(as), "S", as.S>>)
+                      /\ Clause("C17.listed.accepted", notacc = {},
+                                IF notacc = {} THEN <<>> ELSE <<"rep", One(notacc)[1], "n", One(notacc)[2], "first", FirstNr(as), "last", LastNr(as)>>)
             ELSE TRUE
+         \* C17.listed, judged at EVERY observation for the MPD then on disk: the listed <<t, d>> of every number equal
+         \* the accepted upload's <<tfdt, duration>> and what the stored file says when decoded (if it is on disk)
+         /\ \A i \in DOMAIN cur :
+                   LET as     == cur[i]
+                       sameTs == \A r \in Range(as.reps) : r \in Names /\ TrackTs(r) = as.ts
+                       wrong  == IF sameTs THEN ListedWrongTime(as, upl1) ELSE {}
+                       wrongD == IF sameTs THEN ListedWrongDecoded(as, e.files, Names) ELSE {}
+                   IN /\ Clause("C17.listed.times", wrong = {},
+                                IF wrong = {} THEN <<>> ELSE <<"rep", One(wrong)[1], "n", One(wrong)[2], "first", FirstNr(as), "S", as.S>>)
+                      /\ Clause("C17.listed.decoded", wrongD = {},
+                                IF wrongD = {} THEN <<>> ELSE <<"rep", One(wrongD)[1], "n", One(wrongD)[2], "first", FirstNr(as), "S", as.S,
+                                                               "file", FileOf(e.files[One(wrongD)[1]], One(wrongD)[2])>>)
          \* C17.newest
          /\ Clause("C17.newest", NewestOK(lastB, b), <<"before", lastB, "now", b>>)
          \* C17.complete at the observation
@@ -71,23 +89,23 @@ Up == /\ e.ev = "up"
                  /\ Clause("C17.bounded.counters", BufBounded(e.hook.cfill, e.hook.clen, W) /\ e.hook.cfill <= e.hook.clen,
                            <<"fill", e.hook.cfill, "len", e.hook.clen, "window", W>>)
             ELSE TRUE
-         /\ upl' = upl1 /\ lastB' = b
+         /\ upl' = upl1 /\ tried' = tried1 /\ lastB' = b /\ curAs' = cur
          /\ startedPrev' = (IF e.hook.have THEN e.hook.maxBuf > 0 ELSE startedPrev)
          /\ pubSeen' = (pubSeen \/ e.mpd.state # "absent")
          /\ UNCHANGED h
 
 Poll == /\ e.ev = "poll"
         /\ Clause("C17.complete.poll", e.bad = 0, <<"reads", e.reads, "bad", e.bad, "sample", e.sample>>)
-        /\ UNCHANGED <<h, upl, lastB, startedPrev, pubSeen>>
+        /\ UNCHANGED <<h, upl, tried, lastB, startedPrev, pubSeen, curAs>>
 
 \* C17.progress: no arrival order stops the receiver
 Crash == /\ e.ev = "crash"
          /\ Clause("C17.progress.alive", FALSE, <<"fn", e.fn, "msg", e.msg, "track", e.track, "n", e.n>>)
-         /\ UNCHANGED <<h, upl, lastB, startedPrev, pubSeen>>
+         /\ UNCHANGED <<h, upl, tried, lastB, startedPrev, pubSeen, curAs>>
 
 End == /\ e.ev = "end"
        /\ Clause("C17.progress.alive", e.alive, <<"hid", e.hid>>)
-       /\ UNCHANGED <<h, upl, lastB, startedPrev, pubSeen>>
+       /\ UNCHANGED <<h, upl, tried, lastB, startedPrev, pubSeen, curAs>>
 
 Step == l <= Len(Trace) /\ (Hdr \/ Up \/ Poll \/ Crash \/ End) /\ l' = l + 1
 Done == l = Len(Trace) + 1 /\ Consumed(Len(Trace)) /\ UNCHANGED vars
